@@ -70,6 +70,13 @@ def expect(r, key, fi, guards, accepted, errcls, what, measure=None):
     if isinstance(measure, tuple):
         measure, mention = measure
     near = [(g, n) for g, cls, n in guards if measure and measure in g]
+    if len(near) > 1:
+        # one rule written as several guard clauses: their disjunction is the rule
+        from ..rules import equiv as _eq0
+        for take in (near, near[:2], near[-2:]):
+            if _eq0(' or '.join('(%s)' % g for g, n in take), accepted[0]) is True and all(c_ == errcls for g_, c_, n_ in guards if any(n_ is x[1] for x in take)):
+                r.ok(key, common.site_of(fi, take[0][1]), '%s: `%s`' % (what, ' or '.join(g for g, n in take)))
+                return take[0][1]
     if near:
         from ..rules import equiv as _eq
         v_ = _eq(near[0][0], accepted[0])
